@@ -109,12 +109,12 @@ def _diag_to_failure(unit, g, d):
         kind = 'assert'
     else:
         kind = 'panic'
-    if text.startswith('({'):
+    if text.startswith('({') or (not TAG_RE.search(text) and not LABEL_RE.search(text) and text.count('{') > text.count('}')):
         # a block clause: its tags/label sit on the closing line `}), // [..] #label`
         for ln2 in range(chosen, min(chosen + 40, len(g.lines))):
             l2 = g.lines[ln2].strip()
             if l2.startswith('})'):
-                text = '({ ... ' + l2
+                text = (text if not text.startswith('({') else '({') + ' ... ' + l2
                 break
     tags = TAG_RE.search(text)
     props = None
